@@ -37,8 +37,10 @@ let bq_mon = {
 let bbq_mon cap = {
   body = bbq_body (nat_of_int cap);
   parse_op = (function ["put"; v] -> QPut (z_of_string v) | ["take"] -> QTake | ["size"] -> QSize
+                     | ["empty"] -> QEmpty | ["full"] -> QFull | ["capacity"] -> QCapacity
                      | w -> failwith ("bad bbq op " ^ String.concat " " w));
-  show_op = (function QPut _ -> "put" | QTake -> "take" | QSize -> "size" | _ -> "?");
+  show_op = (function QPut _ -> "put" | QTake -> "take" | QSize -> "size" | QEmpty -> "empty" | QFull -> "full"
+                    | QCapacity -> "capacity");
   size = List.length; show_state = (fun q -> "queue=" ^ show_list q); nconds = 2 }
 let latch_mon = {
   body = latch_body;
